@@ -175,6 +175,26 @@ def check(ctx):
     if bad:
         rp = write_replay(ctx, "src-" + sha(bad[0])[:8], {"property": "C02", "source": bad[0], "why": bad[1]})
         ctx.viol.append(Violation("Annex A sentence: " + bad[1], rp))
+    # sentences in which an identifier is spelled like a word that means something else elsewhere (time units, scale
+    # characters, method names): accepted, whatever stands in front of them
+    extra = ["module m; wire s, a; assign #2.5 s = a; endmodule\n", "module m; reg ns; initial begin #0.5 ns = 1'b1; end endmodule\n",
+             "module m; reg ps, d; always @(d) #1.5 // c\n ps <= d; endmodule\n", "module m; wire [3:0] #3.0 us; endmodule\n",
+             "module m; wire fs, ms; assign #1 fs = 1; assign #(2.5) ms = fs; endmodule\n", "module m; reg s; initial #1.5e3 s = 0; endmodule\n",
+             "module m; reg step; initial #1 step = 1; endmodule\n", "module m; wire e1, x; assign x = 2.5 + e1; endmodule\n",
+             "module m; wire b0, h1; assign b0 = 4 'b0 + h1; endmodule\n", "module m; int std, randomize, sample; initial std = randomize + sample; endmodule\n",
+             "module m; reg x1, z0; initial x1 = 1'b x | z0; endmodule\n", "module m; wire ns; assign #1.0ns ns = 0; endmodule\n"]
+    xc = [Case("x%d" % i).add("want", "tree").add("run", "parse_sv_str", hx(t), hx("t.sv")) for i, t in enumerate(extra)]
+    ximpl = run_harness("api", xc, "c02x", timeout=600)
+    badx = None
+    for c, t in zip(xc, extra):
+        lines = ximpl.get(c.id) or []
+        ctx.corr_cases += 1
+        if crashed(lines) or not any(l.startswith("tree ") for l in lines):
+            badx = badx or (t, "a sentence whose identifiers are spelled like units / scale characters / method names was rejected: %s" % [l for l in lines if l.startswith("err")][:1])
+    ctx.obl("search-oracle:identifiers spelled like time units, scale characters or method names are identifiers", "oracle", badx is None, badx[1] if badx else "")
+    if badx:
+        rp = write_replay(ctx, "src-" + sha(badx[0])[:8], {"property": "C02", "source": badx[0], "why": badx[1]})
+        ctx.viol.append(Violation("Annex A sentence: " + badx[1], rp))
     shapes_check(ctx, ghash)
     libpath_known(ctx)
     findings, _ = load_known()
